@@ -763,16 +763,22 @@ func (s *Seq) modelPut(lid int, r *shapes.Rec) {
 // opRepair: Repair on a healthy collection (nothing pending) changes nothing
 // that can be observed: same objects, same search results, same constraints.
 func (s *Seq) opRepair() {
-	if !s.quiescent {
-		return
+	if !s.quiescent && !s.Cfg.Async {
+		return // a sync-mode Flush(o) left an object file ahead of the schema: not a healthy state
 	}
+	// on an asynchronous collection accepted writes may be pending: they are part of
+	// the healthy state, Repair must not lose them
+	pending := !s.quiescent
 	if err := s.db.Repair(rec0()); err != nil {
 		s.fail("repair", "healthy-repair-failed", "Repair on a healthy collection failed: %v", err)
 	}
-	if err := s.db.Control(); err != nil {
+	if err := s.db.Control(); err != nil && !s.smallDirty {
 		s.fail("repair", "control-fails-after-repair:healthy", "Control fails after Repair on a healthy collection: %v", err)
 	}
 	s.stat("probe:repair-on-healthy")
+	if pending {
+		s.stat("probe:repair-with-pending-writes")
+	}
 	s.checkLayout("after-healthy-repair")
 	s.lightReads("after-healthy-repair")
 }
